@@ -163,7 +163,15 @@ class Extension:
 def _gettext_alias(
     __context: Context, *args: t.Any, **kwargs: t.Any
 ) -> t.Any | Undefined:
-    return __context.call(__context.resolve("gettext"), *args, **kwargs)
+    func = __context.resolve("gettext")
+    environment = __context.environment
+
+    if environment.sandboxed:
+        # ``gettext`` is looked up in the context, which the template can
+        # assign to. It has to pass the same check as a call in the template.
+        return environment.call(__context, func, *args, **kwargs)  # type: ignore
+
+    return __context.call(func, *args, **kwargs)
 
 
 def _make_new_gettext(func: t.Callable[[str], str]) -> t.Callable[..., str]:
